@@ -288,6 +288,16 @@ def one_element(ctx, algebra, S, names, theta):
                 check_exp_output(ctx, cid, route, P0, Yv, S, algebra, Tref)
 
 
+def _quiet(f):
+    """the library prints a notice for prismatic twists in degree mode: keep it off the check's stdout"""
+    import contextlib, io
+
+    def g():
+        with contextlib.redirect_stdout(io.StringIO()):
+            return f()
+    return g
+
+
 def unit_twist_cases(ctx, algebra, tier, seed):
     """exp(S, theta) = exp(theta*S) for unit twists (revolute and prismatic)"""
     import spatialmath.base as b
@@ -325,6 +335,43 @@ def unit_twist_cases(ctx, algebra, tier, seed):
                     ctx.fail(cid, en, 'raises:' + type(T).__name__, P, 'exp(S, theta) raised %r' % (T,))
                     continue
                 check_exp_output(ctx, cid, en, P, T, U * th, algebra)
+        # the twist classes: S.exp(theta) with scalar and vector theta in both units
+        if algebra in ('se3', 'se2'):
+            import spatialmath as sm
+            TW, PC = (sm.Twist3, sm.SE3) if three else (sm.Twist2, sm.SE2)
+            tn_ = TW.__name__
+            sub = [x for x in thetas if abs(x[1]) < 7][::2]
+            for unit in ('rad', 'deg'):
+                k = 1.0 if unit == 'rad' else 180 / math.pi
+                for tn, th in sub:
+                    cid = 'C03/%s/unit/%s/%s.exp/theta=%s/%s' % (algebra, un, tn_, tn, unit)
+                    if not ctx.want(cid):
+                        continue
+                    ctx.case(cid, key=cid)
+                    P = dict(algebra=algebra, unit_twist=un.split('(')[0], theta=tn, unit=unit, mode='Twist.exp')
+                    ok, X = call(_quiet(lambda: TW(U.copy()).exp(th * k, unit)))
+                    if not ok:
+                        ctx.fail(cid, tn_ + '.exp', 'raises:' + type(X).__name__, P, '%r' % (X,))
+                    elif type(X) is not PC or len(X.data) != 1:
+                        ctx.fail(cid, tn_ + '.exp', 'returns:' + type(X).__name__, P, 'expected one %s' % PC.__name__)
+                    else:
+                        check_exp_output(ctx, cid, tn_ + '.exp', P, X.data[0], U * th, algebra)
+                for form in ('list', 'array'):
+                    vs = [t for _, t in sub[:5]]
+                    cid = 'C03/%s/unit/%s/%s.exp/vector/%s/%s' % (algebra, un, tn_, unit, form)
+                    if not ctx.want(cid):
+                        continue
+                    ctx.case(cid, key=cid)
+                    P = dict(algebra=algebra, unit_twist=un.split('(')[0], theta='vector', unit=unit, form=form, mode='Twist.exp')
+                    arg = [t * k for t in vs] if form == 'list' else np.array(vs) * k
+                    ok, X = call(_quiet(lambda: TW(U.copy()).exp(arg, unit)))
+                    if not ok:
+                        ctx.fail(cid, tn_ + '.exp', 'raises:' + type(X).__name__, P, '%r' % (X,))
+                    elif type(X) is not PC or len(X.data) != len(vs):
+                        ctx.fail(cid, tn_ + '.exp', 'mismatch', dict(P, what='count'), 'vector of %d angles gave %s values' % (len(vs), len(getattr(X, 'data', []))))
+                    else:
+                        for j, t in enumerate(vs):
+                            check_exp_output(ctx, cid, tn_ + '.exp', dict(P, j=j), X.data[j], U * t, algebra)
 
 
 def sequence_cases(ctx):
@@ -353,8 +400,6 @@ def sequence_cases(ctx):
                 else:
                     forms.append(('list-of-3', lambda: sm.SE2.Exp([S.copy() for S in Ss])))
                 for fname, f in forms:
-                    if algebra == 'so3' and N == 3:
-                        continue        # a 3x3 array is ambiguous, the option decides; covered by N = 2, 5
                     cid = '%s/%s.Exp/%s' % (base, cn, fname)
                     if not ctx.want(cid):
                         continue
